@@ -82,6 +82,12 @@ CHECKS = {
              "and random larger graphs, under a watchdog.", "5/C17",
          "Trusted base: TLC, replayer. Requires the sdp feature (BLAS through scipy-openblas trampolines).",
          "TLA+ model enumeration with spec->impl replay (DSU) + trace validation of recorded clique trees (Chordal.tla)"),
+ "C18": (MC, "Decomp.tla defines the intended augmented problem declaratively from the original layout and the clique trees (copied cones, one PSD block per clique, "
+             "block position <-> original row, overlaps tied by +1/-1 columns in the compact form, [A H; 0 -I] in the standard form); TLC checks the augmented problem "
+             "found in the public solver.data of every constructed sparse SDP, and after real solves the reversal (row map, slack = sum of blocks, dual = block agreement / "
+             "average, PSD completion) and decomposition on vs off.", "5/C18",
+         "Trusted base: TLC, observer reading of the clique trees, observer eigenvalues. Requires the sdp feature. PSD cone dimensions 4..7.",
+         "trace validation (TLC) of constructed / solved sparse SDPs against Decomp.tla"),
 }
 NOT_APPLICABLE = [
  {"property_id": "C13", "reason": "Nesterov-Todd identities are real-analytic identities (square roots, matrix square roots) with no state, history or index structure for a TLA+ model to carry; TLC has no real arithmetic. The structural clause (KKT block = operator used for slack recovery) is decided under C11."},
